@@ -81,6 +81,16 @@ def rtOut (spec : List Item) (counters : Option (Nat × Nat × Nat) := none) (vi
       | .ok none => s!"err {toHex bytes} -"
       | .ok (some g) => s!"ok {toHex bytes} {dumpFav g}"
 
+def fav4Out (bs : List Nat) : String :=
+  match fav4Migrate bs with
+  | .error e => toString e
+  | .ok none => "err"
+  | .ok (some b) =>
+    match load b with
+    | .error e => toString e
+    | .ok none => s!"ok {toHex b} err"
+    | .ok (some g) => s!"ok {toHex b} {dumpFav g}"
+
 def isSyscall (s : String) : Bool := s = "write" || s = "openat" || s = "renameat"
 
 def stepC19 (_ : Unit) (ws : List String) : Unit × String :=
@@ -161,6 +171,12 @@ def stepC19 (_ : Unit) (ws : List String) : Unit × String :=
           | .ok => "ok new"
           | .err => if old = toHex nb then "err new" else "err old"
         | _, _ => "bad-op"
+    | ["fav4", h] => match parseHex h with
+        | some bs => fav4Out bs
+        | none => "bad-op"
+    | "fav4t" :: ts => match parseTree ts with
+        | some spec => fav4Out (hdr (cntB spec % 65536) (cntL spec % 256) (cntF spec % 256) ++ encEntries spec)
+        | none => "bad-op"
     | ["conc", nw, ms, sd] =>
         match natTok nw 64, natTok ms 60000, natTok sd 4294967295 with
         | some nw, some ms, some _ => if nw = 0 || ms = 0 then "bad-op" else "whole"
